@@ -59,6 +59,9 @@ type driver struct {
 	file   string
 	line   int
 	nodeIx int // comb node index for continuous drivers (-1 otherwise)
+	// memories: constant word index, if any
+	elemConst bool
+	elem      int
 }
 
 func (sg *signal) bitPos(idx int64) int64 {
@@ -68,11 +71,20 @@ func (sg *signal) bitPos(idx int64) int64 {
 	return int64(sg.lsb) - idx
 }
 
+// sigRange is a bit range of a signal (for structural loop analysis).
+type sigRange struct {
+	sg     *signal
+	lo, hi int
+	whole  bool
+}
+
 // combNode is a continuous assignment, a port connection or a combinational always block.
 type combNode struct {
-	run    func(s *Sim)
-	reads  []*signal
-	writes []*signal
+	run     func(s *Sim)
+	reads   []*signal
+	writes  []*signal
+	rranges []sigRange
+	wranges []sigRange
 	isProc bool
 	file   string
 	line   int
